@@ -94,6 +94,13 @@ def cfg_text(spec: str, *, dirs, names, bytes_, mtimes, classes, max_objs, max_o
 # time-controlled local file system (public extension point: register_filesystem)
 # ------------------------------------------------------------------------------------------------
 _CTL: dict[str, Any] = {"copy_mtime": None, "copies": 0}
+VFS_PREFIX = "vfs://"
+_WORLDS = [0]
+
+
+def lp(path: str) -> str:
+    """Local path behind a (possibly vfs://) redun path."""
+    return path[len(VFS_PREFIX):] if path.startswith(VFS_PREFIX) else path
 
 
 def install_controlled_fs() -> None:
@@ -118,6 +125,55 @@ def install_controlled_fs() -> None:
     if not getattr(type(rf.File("/tmp/x").filesystem), "_verif_controlled", False):
         raise MachineryError("register_filesystem no longer routes local paths to the registered class")
 
+    class VirtualRemoteFileSystem(ControlledLocalFileSystem):
+        """A second, non-local file system (vfs://<absolute local path>) over the same disk: copies between the two
+        take the upload / download branches of File.copy_to and of the staging classes.  The model does not
+        know where a directory lives; hashes are taken of the local path, so they agree with the model's."""
+        name = "vfs"
+
+        def _ensure_dir(self, path):
+            return super()._ensure_dir(lp(path))
+
+        def _open(self, path, mode, **kw):
+            return super()._open(lp(path), mode, **kw)
+
+        def exists(self, path):
+            return super().exists(lp(path))
+
+        def remove(self, path):
+            return super().remove(lp(path))
+
+        def touch(self, path, time=None):
+            return super().touch(lp(path), time)
+
+        def mkdir(self, path):
+            return super().mkdir(lp(path))
+
+        def rmdir(self, path, recursive=False):
+            return super().rmdir(lp(path), recursive)
+
+        def get_hash(self, path):
+            return super().get_hash(lp(path))
+
+        def copy(self, src_path, dest_path):
+            return super().copy(lp(src_path), lp(dest_path))
+
+        def glob(self, pattern):
+            return [VFS_PREFIX + x for x in super().glob(lp(pattern))]
+
+        def isfile(self, path):
+            return super().isfile(lp(path))
+
+        def isdir(self, path):
+            return super().isdir(lp(path))
+
+        def filesize(self, path):
+            return super().filesize(lp(path))
+
+    rf.register_filesystem(VirtualRemoteFileSystem)
+    if rf.File(VFS_PREFIX + "/tmp/x").filesystem.name != "vfs":
+        raise MachineryError("register_filesystem no longer routes vfs:// paths to the registered class")
+
 
 def quiet_redun() -> None:
     logging.getLogger("redun").setLevel(logging.ERROR)
@@ -135,24 +191,39 @@ class World:
         self.root.mkdir(parents=True, exist_ok=True)
         self.objs: list = []
         self.meta: list[tuple[str, list]] = []  # (cls, t)
+        # which directories live on the second (non-local) file system: changes from world to world
+        _WORLDS[0] += 1
+        self.widx = _WORLDS[0]
+        self.all_local = False
 
     # paths ------------------------------------------------------------------------------------
-    def fpath(self, t) -> str:
+    def remote(self, d: str) -> bool:
+        import hashlib
+
+        return not self.all_local and hashlib.md5(f"{d}|{self.widx}".encode()).digest()[0] & 1 == 0
+
+    def lpath(self, t) -> str:
+        """The local path (for what the harness does to the disk itself)."""
         return str(self.root / t[0] / t[1])
 
+    def fpath(self, t) -> str:
+        """The path handed to redun."""
+        return (VFS_PREFIX if self.remote(t[0]) else "") + self.lpath(t)
+
     def arg(self, cls: str, t) -> str:
+        pre = VFS_PREFIX if self.remote(t[0]) else ""
         if cls in FILE_CLS:
             return self.fpath(t)
         if cls in DIR_CLS:
-            return str(self.root / t[0])
-        return str(self.root / t[0] / "*")
+            return pre + str(self.root / t[0])
+        return pre + str(self.root / t[0] / "*")
 
     def make(self, cls: str, t):
         return getattr(self.rf, cls)(self.arg(cls, t))
 
     # file system ------------------------------------------------------------------------------
     def fstate(self, t) -> dict:
-        p = self.fpath(t)
+        p = self.lpath(t)
         if not os.path.isfile(p):
             return {"ex": False, "bytes": 0, "mtime": -1}
         data = open(p).read()
@@ -161,21 +232,21 @@ class World:
         return {"ex": True, "bytes": CONTENT_ID.get(data, -9), "mtime": int(m) if m == int(m) else m}
 
     def env_set(self, t, b: int, m: int) -> None:
-        p = self.fpath(t)
+        p = self.lpath(t)
         os.makedirs(os.path.dirname(p), exist_ok=True)
         with open(p, "w") as f:
             f.write(CONTENT[b])
         os.utime(p, (mt(m), mt(m)))
 
     def env_del(self, t) -> None:
-        os.remove(self.fpath(t))
+        os.remove(self.lpath(t))
 
     # operations -------------------------------------------------------------------------------
     def _write(self, obj, mode: str, data: str, m: int) -> None:
         with obj.open(mode) as fh:
             fh.write(data)
             fh.flush()
-            os.utime(obj.path, (mt(m), mt(m)))
+            os.utime(lp(obj.path), (mt(m), mt(m)))
 
     def apply(self, op: dict) -> Optional[str]:
         """Executes one model operation; returns the exception type name if the call raised."""
@@ -200,29 +271,29 @@ class World:
                     oj = self.make(op["c"], op["t"])
                     self.objs.append(oj)
                     self.meta.append((op["c"], op["t"]))
-                skipped = bool(op["k"]) and os.path.exists(oj.path)
+                skipped = bool(op["k"]) and os.path.exists(lp(oj.path))
                 oi.copy_to(oj, skip_if_exists=bool(op["k"]))
                 if not skipped:
-                    dests.append(oj.path)
+                    dests.append(lp(oj.path))
             elif n in ("stage", "unstage"):
                 st = oj.classes.StagingFile(oi, oj)  # local = i, remote = j
-                if oi.path != oj.path:
-                    dests.append(oi.path if n == "stage" else oj.path)
+                if lp(oi.path) != lp(oj.path):
+                    dests.append(lp(oi.path if n == "stage" else oj.path))
                 st.stage() if n == "stage" else st.unstage()
             elif n == "dcopy":
                 if j == 0:
                     oj = self.make(op["c"], op["t"])
                     self.objs.append(oj)
                     self.meta.append((op["c"], op["t"]))
-                src_members = sorted(os.listdir(oi.path)) if os.path.isdir(oi.path) else []
+                src_members = sorted(os.listdir(lp(oi.path))) if os.path.isdir(lp(oi.path)) else []
                 oi.copy_to(oj)
-                dests += [os.path.join(oj.path, x) for x in src_members]
+                dests += [os.path.join(lp(oj.path), x) for x in src_members]
             elif n in ("dstage", "dunstage"):
                 st = oj.classes.StagingDir(oi, oj)
                 src, dst = (oj, oi) if n == "dstage" else (oi, oj)
-                if src.path != dst.path:
-                    src_members = sorted(os.listdir(src.path)) if os.path.isdir(src.path) else []
-                    dests += [os.path.join(dst.path, x) for x in src_members]
+                if lp(src.path) != lp(dst.path):
+                    src_members = sorted(os.listdir(lp(src.path))) if os.path.isdir(lp(src.path)) else []
+                    dests += [os.path.join(lp(dst.path), x) for x in src_members]
                 st.stage() if n == "dstage" else st.unstage()
             elif n == "mkdir":
                 oi.mkdir()
@@ -363,7 +434,7 @@ class Reporter:
 
 def missing_contentfile(world: World, k: int) -> bool:
     cls, t = world.meta[k]
-    return cls == "ContentFile" and not os.path.exists(world.fpath(t))
+    return cls == "ContentFile" and not os.path.exists(world.lpath(t))
 
 
 def replay_ops_behaviour(rep: Reporter, beh: dict, root: Path, dirs, names, source: str) -> dict:
@@ -637,6 +708,7 @@ def flatten(shape: str, result, nitems: int) -> list:
 class RunWorld(World):
     def __init__(self, lab: SchedLab, root: Path, wf: dict, shape: Optional[str] = None):
         super().__init__(root)
+        self.all_local = True   # the generated task builds its own (local) paths
         self.lab = lab
         self.wf = wf
         self.shape = shape or wf["shape"]
@@ -677,7 +749,7 @@ class RunWorld(World):
         return out
 
     def cached_missing_contentfile(self) -> bool:
-        return any(it["cls"] == "ContentFile" and not os.path.exists(self.fpath(it["t"]))
+        return any(it["cls"] == "ContentFile" and not os.path.exists(self.lpath(it["t"]))
                    for it in self.wf["items"])
 
 
